@@ -23,6 +23,8 @@ pub enum QOp {
     WriteBig(u8),
     /// consume of BIG[k] bytes
     ConsumeBig(u8),
+    /// `Read::read_to_end` (whatever it returns must be the next pending bytes, in order)
+    ReadToEnd,
 }
 
 pub const BIG: [usize; 5] = [65536, 70001, 1_048_577, 2_200_000, 3_300_000];
@@ -89,6 +91,7 @@ pub fn all_ops() -> Vec<QOp> {
     v.push(QOp::ConsumeWithErr);
     v.push(QOp::FillBuf);
     v.push(QOp::ClearButLast);
+    v.push(QOp::ReadToEnd);
     v
 }
 
@@ -133,6 +136,10 @@ fn apply_real(queue: &mut IOQueue, counter: &mut u8, op: &QOp) {
             let _ = queue.write(&buf);
         }
         QOp::ConsumeBig(_) => queue.consume(consume_size(op).unwrap()),
+        QOp::ReadToEnd => {
+            let mut v = vec![];
+            let _ = queue.read_to_end(&mut v);
+        }
         QOp::Flush => {
             let _ = queue.flush();
         }
@@ -207,6 +214,22 @@ pub fn step(hist: &[QOp]) -> (Option<u128>, Vec<(String, String)>) {
                         },
                     }
                     r.model.consume(m);
+                }
+            }
+            QOp::ReadToEnd => {
+                let mut v = vec![];
+                match r.queue.read_to_end(&mut v) {
+                    Ok(size) => {
+                        if size != v.len() || size > r.model.len() {
+                            local.push(("read_to_end-size".into(), format!("read_to_end returned {size}, appended {} bytes, {} bytes pending", v.len(), r.model.len())));
+                        } else {
+                            let expect = r.model.consume(size);
+                            if v != expect {
+                                local.push(("read_to_end-bytes".into(), format!("read_to_end returned {}, next pending bytes are {}", short(&v), short(&expect))));
+                            }
+                        }
+                    }
+                    Err(e) => local.push(("read_to_end-error".into(), format!("read_to_end failed: {e}"))),
                 }
             }
             QOp::ConsumeWithErr => {
@@ -286,6 +309,32 @@ pub fn step(hist: &[QOp]) -> (Option<u128>, Vec<(String, String)>) {
             ),
         ));
     }
+    // probe continuation on another replica: three more bytes, a flush, two more bytes - everything pending plus
+    // the five new bytes must come out, in order (state the queue hides, such as a stale offset, shows here; the
+    // chunk lengths seen are part of the key so that states with different futures are not merged)
+    let mut probe = IOQueue::new();
+    let mut c2 = 0u8;
+    for op in hist {
+        apply_real(&mut probe, &mut c2, op);
+    }
+    let probe_bytes: Vec<u8> = (0..5u8).map(|i| 200 + i).collect();
+    let _ = probe.write(&probe_bytes[..3]);
+    let _ = probe.flush();
+    let _ = probe.write(&probe_bytes[3..]);
+    let probe_len = probe.len();
+    let (pbytes, pchunks) = drain(&mut probe);
+    let mut want = pend.clone();
+    want.extend_from_slice(&probe_bytes);
+    if problems.is_empty() && (pbytes != want || probe_len != want.len()) {
+        let at = pbytes.iter().zip(want.iter()).position(|(a, b)| a != b).unwrap_or(pbytes.len().min(want.len()));
+        problems.push((
+            "drain-after-more-writes".into(),
+            format!(
+                "after 3 more bytes, a flush and 2 more bytes len() = {probe_len} and draining yields {} bytes, expected {}; first difference at offset {at}: {} vs {}",
+                pbytes.len(), want.len(), short(&pbytes[at.min(pbytes.len())..]), short(&want[at.min(want.len())..])
+            ),
+        ));
+    }
     if !problems.is_empty() {
         return (None, problems);
     }
@@ -298,7 +347,7 @@ pub fn step(hist: &[QOp]) -> (Option<u128>, Vec<(String, String)>) {
     }
     let started: Vec<bool> = distinct.iter().map(|d| r.model.started.contains(d)).collect();
     let next_same = distinct.last().map(|d| *d == r.model.flushes).unwrap_or(false);
-    let key = hash128(&(chunks, len_field, chunks_count, front, fids, started, next_same));
+    let key = hash128(&(chunks, len_field, chunks_count, front, fids, started, next_same, pchunks));
     (Some(key), problems)
 }
 
